@@ -10,6 +10,7 @@ for S in "${IDS[@]}"; do
   [ -f "$S/meta.json" ] || continue
   PROP=$(python3 -c "import json;print(json.load(open('$S/meta.json'))['property'])")
   ALSO=$(python3 -c "import json;print(' '.join(json.load(open('$S/meta.json')).get('also_run',[])))")
+  if [ "$PROP" = "C24" ] && [ -z "${WITH_C24:-}" ]; then echo "##### $S skipped (C24: run with WITH_C24=1 MIRI_VARIANT=.. MIRI_SEEDS=..)"; continue; fi
   echo "##### $S (property $PROP; also: $ALSO)"
   /verif/tools/try_patch.sh /verif/seeded/$S/patch.diff quick $PROP $ALSO 2>&1 | grep -E "^== |^VIOLATION|class=|^runs=|RESULT|MISMATCH|FAILING" | cut -c1-300 | tee /verif/seeded/$S/last_run.txt
 done
